@@ -191,18 +191,21 @@ peg::parser! {
 
         rule expr() -> Expr = or_expr()
 
+        #[cache]
         rule or_expr() -> Expr
             = x:and_expr() _ ci("OR") _ y:or_expr() {
                 Expr::Or(Box::new(x), Box::new(y))
             }
             / and_expr()
 
+        #[cache]
         rule and_expr() -> Expr
             = x:factor() _ ci("AND") _ y:and_expr() {
                 Expr::And(Box::new(x), Box::new(y))
             }
             / factor()
 
+        #[cache]
         rule factor() -> Expr
             = ci("NOT") _ x:factor() { Expr::Not(Box::new(x)) }
             / "(" _ e:expr() _ ")" { e }
